@@ -11,6 +11,8 @@
      missing   (root, ctx, info)           incompatible with `strict` and `loose` (no parameter for a), fine for `plain`
      few       (root, ctx)                 incompatible with every field (fewer than 3 positional parameters)
      varargs   (root, ctx, info, *args)    like missing: field arguments are passed by keyword, *args cannot receive them
+     short     (root, ctx, a=None)         for a field with argument a only two positionals remain for (root, ctx, info): incompatible;
+                                           for `plain` the parameter a is the third positional: compatible
    State: res[f] = signature class assigned to field f ("none" = no resolver), memo = what validate() last concluded.
    Actions: Register(f, c) (with override), Validate.  The specification's verdict is a function of the CURRENT state:
    every Validate step records whether validate() must raise.  The same function object may be assigned to several fields
@@ -18,12 +20,12 @@
 EXTENDS Naturals, Sequences, FiniteSets, TLC, Json
 CONSTANT MaxOps
 Fields == {"strict", "loose", "plain"}
-Classes == {"exact", "default", "kwargs", "missing", "few", "varargs"}
+Classes == {"exact", "default", "kwargs", "missing", "few", "varargs", "short"}
 Compatible(f, c) ==
   CASE c = "none" -> TRUE
     [] c \in {"default", "kwargs"} -> TRUE
     [] c = "exact" -> f = "strict"
-    [] c \in {"missing", "varargs"} -> f = "plain"
+    [] c \in {"missing", "varargs", "short"} -> f = "plain"
     [] c = "few" -> FALSE
 VARIABLES res, hist
 vars == <<res, hist>>
